@@ -60,6 +60,15 @@ def rule_except_discipline(repo: Repo) -> List[Ob]:
                 n_handlers += 1
                 key = f"{f.relpath}::{f.qualname}::except::{src(h.type) if h.type is not None else 'bare'}"
                 raises, exits = _handler_outcomes(h)
+                # EAFP lookup:  try: return table[key]  except KeyError: <create the entry>  -- a lookup miss is not a refusal
+                lookup_types = {"KeyError", "IndexError", "AttributeError", "StopIteration", "LookupError"}
+                htypes = {src(x) for x in (h.type.elts if isinstance(h.type, ast.Tuple) else [h.type])} if h.type is not None else set()
+                only_lookup = len(t.body) == 1 and isinstance(t.body[0], (ast.Return, ast.Assign, ast.Expr)) and \
+                    isinstance(getattr(t.body[0], "value", None), (ast.Subscript, ast.Attribute, ast.Call)) and \
+                    (not isinstance(t.body[0].value, ast.Call) or call_name(t.body[0].value) in ("next", "getattr", "index", "pop"))
+                if htypes and htypes <= lookup_types and only_lookup:
+                    obs.append(Ob("E-except", key, f.relpath, h.lineno, f.qualname, True, "lookup miss handled (try: read an entry / except: create it)", trivial=True))
+                    continue
                 if raises:
                     obs.append(Ob("E-except", key, f.relpath, h.lineno, f.qualname, True, "the handler re-raises (possibly as the project's own exception) on every path"))
                     continue
